@@ -90,9 +90,8 @@ func (p Polygon) Validate() error {
 				// It's ok to access the first coord (index 0), since we've
 				// already checked to ensure that no ring is empty.
 				iStart := p.rings[i].Coordinates().GetXY(0)
-				jStart := p.rings[j].Coordinates().GetXY(0)
-				nestedFwd := relatePointToRing(iStart, p.rings[j]) == interior
-				nestedRev := relatePointToRing(jStart, p.rings[i]) == interior
+				nestedFwd := ringIsNestedInRing(p.rings[i], p.rings[j])
+				nestedRev := ringIsNestedInRing(p.rings[j], p.rings[i])
 				if nestedFwd || nestedRev {
 					return violateRingNested.errAtXY(iStart)
 				}
@@ -148,6 +147,23 @@ func (p Polygon) Validate() error {
 		return violateInteriorConnected.err()
 	}
 	return nil
+}
+
+// ringIsNestedInRing reports whether ring a is inside of ring b. The rings may
+// touch, so control points of a that are on b are inconclusive and skipped:
+// the first control point of a that is strictly inside or strictly outside of
+// b decides.
+func ringIsNestedInRing(a, b LineString) bool {
+	seq := a.Coordinates()
+	for k := 0; k < seq.Length(); k++ {
+		switch relatePointToRing(seq.GetXY(k), b) {
+		case interior:
+			return true
+		case exterior:
+			return false
+		}
+	}
+	return false
 }
 
 func validateRing(r LineString) error {
